@@ -38,7 +38,8 @@ func init() {
 
 // Num: an interface type with a concat function registered for the interface type itself:
 // ConcatItems[Num] must hand the chunks to it (it must not fall back to concatenation by
-// dynamic type).  The function sums Val() over the non-nil chunks and answers with a NumA.
+// dynamic type).  The function sums Val() over the non-nil chunks and answers with a NumA, and
+// with the nil Num when every chunk is nil.
 type Num interface{ Val() int }
 type NumA int
 type NumB struct{ V int }
@@ -48,11 +49,16 @@ func (n NumB) Val() int { return n.V }
 
 func init() {
 	compose.RegisterStreamChunkConcatFunc(func(items []Num) (Num, error) {
-		s := 0
+		s, some := 0, false
 		for _, it := range items {
 			if it != nil {
+				some = true
 				s += it.Val()
 			}
+		}
+		if !some {
+			// nothing to sum: the nil Num (a legitimate value of the chunk type; payload 0 in the model)
+			return nil, nil
 		}
 		return NumA(s), nil
 	})
